@@ -22,6 +22,9 @@ def gen_name(rng, ci, used):
         else:
             pool = rng.pick([ASCII, ASCII, ASCII + BMP, BMP + ASTRAL + ASCII])
         s = ''.join(rng.pick(pool) for _ in range(n)).strip()
+        if rng.chance(0.06):
+            # code units that a BOM-aware decoder would swallow or act upon: U+FEFF / U+FFFE at the start (or alone)
+            s = rng.pick(['\ufeff', '\ufffe']) + rng.pick([s, s, ''])
         if not s or '/' in s or s in ('.', '..'):
             continue
         k = s.lower() if ci else s
